@@ -11,7 +11,7 @@ use clock_bound_d::channels::new_channel_web;
 use clock_bound_d::thread_manager::Context;
 use clock_bound_d::verif as dv;
 use clock_bound_d::{ChannelId, ChronyClockStatus, Message};
-use clock_bound_shm::{ShmReader, ShmWriter};
+use clock_bound_shm::ShmReader;
 use proptest::prelude::*;
 use serde::{Deserialize, Serialize};
 use std::cell::RefCell;
@@ -698,7 +698,7 @@ pub fn run_history(case: &HistCase, env: &mut Env) -> Result<HistRun, String> {
         };
         std::fs::write(&path, crate::layout::segment_bytes(&Hdr::valid(40), &old)).map_err(|e| e.to_string())?;
     }
-    let writer = ShmWriter::new(&path).map_err(|e| format!("ShmWriter::new failed: {}", e))?;
+    let writer = crate::shmutil::new_writer(&path).map_err(|e| format!("ShmWriter::new failed: {}", e))?;
     let start_generation = crate::layout::read_generation(&path).unwrap_or(0);
 
     // schedule: time at which each step's message is processed
